@@ -45,6 +45,23 @@ pub fn main(args: &[String]) {
                 }
             });
         }
+        "session" => {
+            // several command lines (separated by the token ";;") executed in order on one fresh Uci; one result line each
+            let toks: Vec<String> = args[1..].to_vec();
+            guarded(move || {
+                let mut uci = Uci::new();
+                for line in toks.split(|t| t == ";;") {
+                    let fields: Vec<&str> = line.iter().map(String::as_str).collect();
+                    match UCICommand::new(&fields) {
+                        Ok(c) => match uci.execute_command(c) {
+                            Ok(()) => println!("OK ok {}", crate::board::rce_verif_board::board_str(&uci.board)),
+                            Err(e) => println!("OK execerr {}", crate::board::rce_verif_board::board_str(&uci.board)),
+                        },
+                        Err(e) => println!("OK parseerr {}", crate::board::rce_verif_board::board_str(&uci.board)),
+                    }
+                }
+            });
+        }
         _ => {
             eprintln!("uci helper: unknown command {cmd}");
             std::process::exit(3);
